@@ -3089,6 +3089,7 @@ class Set(Collection):
                 setdata.count, setdata.added, setdata.removed = prev_count, prev_added, prev_removed
                 if not was_modified_earlier: modified_collections.discard(obj)
             undo_funcs.append(undo_func)
+        to_remove &= setdata  # in one-to-many relationship the items were already removed from setdata by reverse calls
         setdata.clear()
         setdata |= new_items
         if setdata.count is not None: setdata.count = len(new_items)
@@ -3557,6 +3558,7 @@ class SetInstance(object):
             except:
                 for undo_func in reversed(undo_funcs): undo_func()
                 raise
+        items &= setdata  # in one-to-many relationship the items were already removed from setdata by reverse calls
         setdata -= items
         if setdata.count is not None: setdata.count -= len(items)
         added = setdata.added
